@@ -6,7 +6,7 @@ import collections.abc
 from bisect import bisect_left, bisect_right
 from pathlib import Path
 from numbers import Number
-from operator import truediv, sub, mul, itemgetter, methodcaller
+from operator import truediv, sub, mul, lt, itemgetter, methodcaller
 from abc import abstractmethod
 from collections import defaultdict
 from dataclasses import dataclass, astuple, field, replace
@@ -190,6 +190,7 @@ class Table:
     def __init__(self, data:Union[Mapping, Sequence[Mapping], Sequence[Sequence]] = (), columns: Sequence[str] = (), indexes: Sequence[str]= ()):
         self._columns = tuple(columns) or tuple(data)
         self._lohis   = None
+        self._indexes = ()
 
         data_is_view            = isinstance(data,View)
         data_is_mapping_of_cols = isinstance(data,collections.abc.Mapping)
@@ -225,6 +226,8 @@ class Table:
         if data_is_empty:
             return self
 
+        old_len = len(self)
+
         if data_is_sequence_of_dicts:
             data = {k:[d.get(k,Missing) for d in data] for k in set().union(*(d.keys() for d in data))}
             data_is_mapping_of_cols = True
@@ -236,7 +239,6 @@ class Table:
             old_cols = new&old
             pad_cols = old-new
 
-            if new_cols: old_len = len(self)
             if pad_cols: dat_len = 1 if not data else len(next(iter(data.values())))
 
             for hdr in new_cols:
@@ -258,6 +260,27 @@ class Table:
                 self._data[hdr].extend(col)
 
         if self._lohis: self._lohis = {}
+
+        if self._indexes:
+            #rows appended to an indexed table keep it indexed only if they continue the sort order.
+            #Otherwise the index is dropped so that where() scans and index() sorts again.
+            cols = [self._data[col] for col in self._indexes]
+            #leading index columns that are constant over the new rows can't break their order. Columns given as repeat/range
+            #objects are known to be constant/increasing without looking at them (this keeps the check free for TransactionResult
+            #which inserts one pre-sorted evaluation at a time into its indexed interactions table).
+            given = [data.get(col) for col in self._indexes] if data_is_mapping_of_cols else [None]*len(cols)
+            skip  = 0
+            while skip < len(cols)-1 and isinstance(given[skip],repeat): skip += 1
+            if isinstance(given[skip],range) and given[skip].step > 0:
+                in_order = True
+            else:
+                news = [col[old_len:] for col in cols[skip:]]
+                while len(news) > 1 and news[0].count(news[0][0]) == len(news[0]): news.pop(0)
+                keys = news[0] if len(news) == 1 else list(zip(*news))
+                in_order = not any(map(lt,keys[1:],keys))
+            if in_order and old_len:
+                in_order = not (tuple(col[old_len] for col in cols) < tuple(col[old_len-1] for col in cols))
+            if not in_order: self._indexes = ()
 
         return self
 
